@@ -4,6 +4,7 @@ from .c09 import bestmove_rule
 
 SCOPE = "engine"
 LEVEL = "other"
+PANIC_PROFILES = True
 EXPLANATION = (
     "Static analysis of the resolved MIR. R1: on every returning path of Search::go exactly one call resolves to "
     "UciTx::best_move. R2: no other workspace function calls it. R3: Search::idle reaches go exactly once per "
@@ -24,6 +25,10 @@ def run(ctx):
     bestmove_rule(ctx, "C07.R1")
     from . import c07_struct
     c07_struct.run(ctx)
+    run_panics(ctx)
+
+
+def run_panics(ctx):
     run_panic_inventory(ctx, "C07.R4", entries(ctx.prog),
                         "no unreviewed non-arithmetic panic site (bounds check, unwrap, index, panic!, div by zero, RefCell, Duration ops) is reachable in the search thread",
                         ctx_sensitive=True, kinds=("contract",), fn_floor=200, site_floor=60)
